@@ -40,7 +40,7 @@ class Runtime:
         idx = self.counters.get(path, 0) + 1
         self.counters[path] = idx
         rec = {"path": path, "idx": idx, "args": [[p, IR.canon(v)] for p, v in args],
-               "objs": {p: id(v) for p, v in args}, "raw": dict(args)}
+               "objs": {p: id(v) for p, v in args}, "raw": dict(args), "dec": ["~nodec"]}
         self.log.append(rec)
         return idx, rec
 
@@ -82,11 +82,12 @@ class Runtime:
         return self._result(self.nodes[path], args)
 
     def gate(self, path, args):
-        idx, _ = self._enter(path, args)
+        idx, rec = self._enter(path, args)
         self._maybe_fail(path, idx)
         nd = self.nodes[path]
         raw = nd["script"][min(idx, len(nd["script"])) - 1]
         self.ends.append(path)
+        rec["dec"] = effective_decision(nd, raw)
         return decode_decision(nd, raw)
 
     def handler(self, path, args):
@@ -100,6 +101,15 @@ class Runtime:
         if len(outs) == 1:
             return f"ans.{nd['name']}.{outs[0]}"
         return {o: f"ans.{nd['name']}.{o}" for o in outs}
+
+
+def effective_decision(nd, raw):
+    """The decision the gate takes (list of strings, as in the model): fallback for None, [] for none."""
+    if raw == [IR.NONE]:
+        if nd["kind"] == "route" and not nd["multi"] and nd["fallback"] != IR.NONE:
+            return [nd["fallback"]]
+        return []
+    return list(raw)
 
 
 def decode_decision(nd, raw):
@@ -280,5 +290,8 @@ def observe(rt, r):
         "values": {k: IR.canon(v) for k, v in r.values.items()},
         "err": err,
         "pause": pause,
-        "calls": [{"path": c["path"], "idx": c["idx"], "args": c["args"]} for c in rt.log],
+        "calls": [{"path": c["path"], "frame": c["path"].rsplit("/", 1)[0] if "/" in c["path"] else "",
+                   "node": c["path"].rsplit("/", 1)[-1], "step": 0, "idx": c["idx"], "args": c["args"],
+                   "dec": c["dec"]} for c in rt.log],
+        "ends": list(rt.ends),
     }
